@@ -15,6 +15,7 @@
 import MitmVerif.Lemmas.C21
 import MitmVerif.Lemmas.C21V6
 import MitmVerif.Lemmas.C21V6Back
+import MitmVerif.Lemmas.C21V6Py
 import MitmVerif.Gen.C21
 namespace MitmVerif.Props.C21
 open MitmVerif MitmVerif.C21
@@ -760,6 +761,27 @@ theorem outcome_trichotomy (env : Env) (segs : List Bytes) :
   | greet buf => left; exact ⟨⟨buf, Or.inl rfl⟩, pending_quiet env segs (by rw [hst]; simp) (by rw [hst]; simp)⟩
   | auth buf => left; exact ⟨⟨buf, Or.inr (Or.inl rfl)⟩, pending_quiet env segs (by rw [hst]; simp) (by rw [hst]; simp)⟩
   | connect buf => left; exact ⟨⟨buf, Or.inr (Or.inr rfl)⟩, pending_quiet env segs (by rw [hst]; simp) (by rw [hst]; simp)⟩
+
+/-! ### round 5: CPython's IPv6 writer (`str(ipaddress.IPv6Address)`, used elsewhere in mitmproxy, e.g. for AAAA data) -/
+
+/-- the text CPython writes for an IPv6 address reads back — with the transcription of CPython's reader — to exactly
+    the 16 bytes, for every address -/
+theorem textV6Py_reads_back (ad : Bytes) (h : ad.length = 16) :
+    C22.parseIp (asciiBytes (textV6Py ad)) = some (.v6 (beNat ad) none) := by
+  rw [parseIp_textV6Py ad h, wordsVal_words16 ad h]
+
+/-- CPython's writer and inet_ntop6 (the text Socks5Proxy stores) give the same text unless inet_ntop6 embeds an IPv4
+    suffix (`::a.b.c.d`, `::ffff:a.b.c.d`) -/
+theorem textV6Py_eq_inet_ntop_unless_embedded (ad : Bytes)
+    (h : ¬ Embedded (bestRun (words16 ad)) ((words16 ad).getD 5 0)) : textV6Py ad = textV6 ad :=
+  textV6Py_eq_textV6 ad h
+
+example : String.ofList (textV6Py [0,0,0,0,0,0,0,0,0,0,0xff,0xff,1,2,3,4]) = "::ffff:102:304" := by decide +kernel
+example : String.ofList (textV6Py [0x20,1,0xd,0xb8,0,0,0,0,0,1,0,0,0,0,0,1]) = "2001:db8::1:0:0:1" := by decide +kernel
+example : bestRun (words16 [0,0,0,0,0,0,0,0,0,0,0xff,0xff,1,2,3,4]) = some ⟨0, 5⟩ := by decide +kernel
+example : ¬ Embedded (bestRun (words16 [0x20,1,0xd,0xb8,0,0,0,0,0,1,0,0,0,0,0,1])) 1 := by
+  have : bestRun (words16 [0x20,1,0xd,0xb8,0,0,0,0,0,1,0,0,0,0,0,1]) = some ⟨2, 2⟩ := by decide +kernel
+  simp [this, Embedded]
 
 /-! ### (T) the model's literals are the constants of the code (Gen/C21.lean is regenerated on every run) -/
 
